@@ -131,11 +131,13 @@ def one(ctx, dev, kw, k, N, thermal, out_mode, inj: dict, dt=1e-2, with_model=Tr
     path = None
     if out_mode != "none":
         path = os.path.join(work, "out.h5")
-        if out_mode in ("existing", "existing2", "stale_tmp"):
-            for nm in (["out.h5"] if out_mode != "existing2" else ["out.h5", "out-1.h5"]):
+        if out_mode in ("existing", "existing2", "stale_tmp", "stale_tmp_serial"):
+            for nm in {"existing2": ["out.h5", "out-1.h5"], "stale_tmp_serial": ["out.h5", "out-1.h5", "out-2.h5"]}.get(out_mode, ["out.h5"]):
                 with h5py.File(os.path.join(work, nm), "w") as f:
                     f["marker"] = np.arange(5)
-        if out_mode == "stale_tmp":
+        if out_mode in ("stale_tmp", "stale_tmp_serial"):
+            # a hard-killed earlier run left out.h5.tmp; its broken out.h5 was deleted by the user (and, in the
+            # "serial" mode, results of other earlier runs sit at the next names of the series)
             os.remove(os.path.join(work, "out.h5"))
             with h5py.File(os.path.join(work, "out.h5.tmp"), "w") as f:
                 f["stale"] = np.arange(3)
@@ -219,8 +221,8 @@ def one(ctx, dev, kw, k, N, thermal, out_mode, inj: dict, dt=1e-2, with_model=Tr
                 fail("output-unreadable", f"output file not readable/reopenable after the stop: {e}")
         elif fired and not new and out_mode != "none" and (inj.get("ucall") is not None or inj.get("fcall") is not None):
             pass
-        if new and out_mode in ("existing", "existing2", "stale_tmp"):
-            want = {"existing": "out-1.h5", "existing2": "out-2.h5", "stale_tmp": None}[out_mode]
+        if new and out_mode in ("existing", "existing2", "stale_tmp", "stale_tmp_serial"):
+            want = {"existing": "out-1.h5", "existing2": "out-2.h5", "stale_tmp": None, "stale_tmp_serial": "out-3.h5"}[out_mode]
             if want and new != [want]:
                 fail("fresh-name", f"expected the fresh name {want}, got {new}")
     # ---------------- correspondence with the Lean handler model ----------------
@@ -232,7 +234,7 @@ def one(ctx, dev, kw, k, N, thermal, out_mode, inj: dict, dt=1e-2, with_model=Tr
             uf = f"{0 if c < n_therm else 1}:{c if c < n_therm else c - n_therm}:{inj['kind']}"
         if inj.get("fcall") is not None:
             sf = f"{inj['fcall']}:{inj['kind']}"
-        existing = {"path": "", "existing": "-:0", "existing2": "-:0 1:0", "stale_tmp": "-:1"}[out_mode]
+        existing = {"path": "", "existing": "-:0", "existing2": "-:0 1:0", "stale_tmp": "-:1", "stale_tmp_serial": "-:1 1:0 2:0"}[out_mode]
         dts = " ".join(str(V.bits(dt)) for _ in range(N + n_therm + 3))
         line = f"solvef {k} {V.bits(opts.skip_time) if thermal else '-'} {V.bits(opts.solve_time)} 200 | {dts} | {uf} | {sf} | {existing}"
         (res,) = V.driver([line])
@@ -283,6 +285,7 @@ def run(ctx, stop_first=False, with_model=True):
         plans += [(1, 4, False, "existing2"), (2, 5, True, "path"), (3, 7, False, "stale_tmp"), (2, 6, True, "none")]
     else:
         plans += [(2, 3, False, "stale_tmp")]
+    plans += [(2, 3, False, "stale_tmp_serial")]
     for k, N, thermal, out_mode in plans:
         for inj in injections(N, k, thermal):
             f = one(ctx, dev, kw, k, N, thermal, out_mode, inj, with_model=with_model)
@@ -291,7 +294,7 @@ def run(ctx, stop_first=False, with_model=True):
                 if stop_first:
                     return first
     # no fault at all: the reference behaviour
-    for out_mode in ("path", "existing", "existing2", "stale_tmp", "none"):
+    for out_mode in ("path", "existing", "existing2", "stale_tmp", "stale_tmp_serial", "none"):
         f = one(ctx, dev, kw, 2, 3, False, out_mode, dict(ucall=None, kind="error"))
         first = first or f
     return first
